@@ -315,7 +315,7 @@ def gen(ctx, emit):
             tok = name + "/" + cfg
             # ---- boundary corpus
             ds = [1, 2, n - 1]
-            zs = [1, 2, n - 1, n, n + 1, two256 - 1]
+            zs = [1, 2, n - 1, n, n + 1, 2 * n if 2 * n < two256 else two256 - 2, two256 - 1]
             for d in ds:
                 for z in zs:
                     emit("sign %s %d %d" % (tok, d, z))
@@ -368,7 +368,7 @@ def gen(ctx, emit):
             for r in (1, 2, 3, 4, 5, 6, 7):
                 emit("recover %s 1 %d 1 ~" % (tok, r))
             # ---- random stream
-            for _ in range(ctx.n(6, 140)):
+            for _ in range(ctx.n(5, 140)):
                 d = rng.choice([rng.randrange(1, n), rng.randrange(1, n), rng.randrange(1, 2 ** 64), n - rng.randrange(1, 1000)])
                 z = rng.choice([rng.randrange(1, two256), rng.randrange(1, two256), rng.randrange(1, n), rng.getrandbits(rng.randrange(1, 257)) or 1])
                 emit("sign %s %d %d" % (tok, d, z))
@@ -416,6 +416,18 @@ def gen(ctx, emit):
     toy = []
     for p in cc.TOY_PRIMES_SMALL:
         toy += cc.toy_curves(p)
+    # always-run toy curves: one with n > p (abscissas r in [p, n) have no point), one with n < p (nonce points with
+    # x >= n, so that `x mod n` matters in verify and the recid bit 2 is exercised)
+    fixed = ["toy:43:41:40:0:13:53", "toy:43:6:24:0:14:37"]
+    for tok in fixed:
+        p, ca, cb, gx, gy, n = consts(tok)
+        for d in (1, 2, n - 1):
+            emit("toy_sign %s %d %d" % (tok, d, n + 2), "toy-table")
+        emit("toy_verify %s 1 1" % tok, "toy-table")
+        emit("toy_verify %s 2 %d" % (tok, n + 1), "toy-table")
+        emit("toy_verify %s %d %d" % (tok, n - 1, 2 ** 256 - 1), "toy-table")
+        for r in range(1, n):
+            emit("recover %s 5 %d 3 ~" % (tok, r))
     chosen = rng.sample(toy, ctx.n(3, 40))
     for tok in chosen:
         p, ca, cb, gx, gy, n = consts(tok)
